@@ -4,6 +4,8 @@ use std::{any::Any, cell::RefCell, collections::HashMap, sync::Arc};
 pub(crate) use caller::CallerInformation;
 use dashmap::DashSet;
 pub(crate) use database::{ActiveInputSessionGuard, QueryDebug};
+#[cfg(qbice_verif)]
+pub(crate) use database::{CompressedBackwardEdgeSet, TieredStorage};
 pub use input_session::{InputSession, SetInputResult};
 use qbice_serialize::{Decode, Encode};
 use qbice_stable_hash::{BuildStableHasher, StableHash, StableHasher};
@@ -422,11 +424,13 @@ impl<C: Config> Engine<C> {
 
         // register the dependency for the sake of detecting cycles
         let undo_register = self.register_callee(caller, &query.id);
+        crate::verif_pause!("q.registered", Some(&query.id));
 
         let mut status = QueryStatus::UpToDate;
 
         // pulling the value
         let value = loop {
+            crate::verif_pause!("q.loop", Some(&query.id));
             // exit SCC if any, otherwise deadlock may happen
             match self.exit_scc(&query.id, caller).await {
                 // continue to process
@@ -436,6 +440,7 @@ impl<C: Config> Engine<C> {
                     // defuse the undo `register_callee` keep cyclic dependency
                     // detection correct
                     if let Some(undo) = undo_register {
+                        crate::verif_point!("defuse", Some(&query.id), 1);
                         undo.defuse();
                     }
 
@@ -456,6 +461,7 @@ impl<C: Config> Engine<C> {
                     // defuse the undo `register_callee` since we have obtained
                     // the value, record the dependency successfully
                     if let Some(undo_register) = undo_register {
+                        crate::verif_point!("defuse", Some(&query.id), 0);
                         undo_register.defuse();
                     }
 
@@ -476,7 +482,9 @@ impl<C: Config> Engine<C> {
                 CallerKind::User | CallerKind::RepairFirewall
             ) && slow_path == SlowPath::Repair
             {
+                crate::verif_pause!("q.tfc.before", Some(&query.id));
                 snapshot.repair_transitive_firewall_callees(caller).await;
+                crate::verif_pause!("q.tfc.after", Some(&query.id));
 
                 // restore the snapshot after repair
                 snapshot = self
@@ -487,14 +495,17 @@ impl<C: Config> Engine<C> {
             // now the `query` state is held in computing state.
             // if `guard` is dropped without defusing, the state will
             // be restored to previous state (either computed or absent)
+            crate::verif_pause!("q.wg.before", Some(&query.id));
             let Some((snapshot, guard)) =
                 snapshot.get_write_guard(slow_path, caller).await
             else {
                 // try the fast path again
                 continue;
             };
+            crate::verif_pause!("q.wg.after", Some(&query.id));
 
             snapshot.process_query(query.query, caller, guard).await;
+            crate::verif_pause!("q.processed", Some(&query.id));
 
             status = QueryStatus::Repaired;
 
